@@ -20,6 +20,9 @@ pub struct Config {
     pub tti: Option<u64>,
     pub hasher: HashMode,
     pub init_cap: Option<usize>,
+    /// Number of DashMap shards of the concurrent cache (a power of two > 1); None = 4.
+    #[serde(default, skip_serializing_if = "Option::is_none")]
+    pub shards: Option<usize>,
 }
 
 impl Config {
@@ -28,13 +31,14 @@ impl Config {
     }
     pub fn class(&self) -> String {
         format!(
-            "{:?}/cap{}/w{}/ttl{}/tti{}/{:?}",
+            "{:?}/cap{}/w{}/ttl{}/tti{}/{:?}/s{}",
             self.kind,
             self.cap.map(|c| c.to_string()).unwrap_or("-".into()),
             self.weigher as u8,
             self.ttl.map(|c| c.to_string()).unwrap_or("-".into()),
             self.tti.map(|c| c.to_string()).unwrap_or("-".into()),
-            self.hasher
+            self.hasher,
+            self.shards.unwrap_or(4)
         )
     }
 }
